@@ -278,13 +278,59 @@ class CompGen:
             self.tags.add("tuple-additional-schema")
         return m
 
+    NUM_INTS = [0, 1, 2, -3, 10]
+    NUM_FRACS = [1.5, 2.5, -0.5, 0.25]
+
+    def numeric_enum_composition(self):
+        """enum / const operands with mixed integer and fractional literals against ONE operand that restricts the
+        type or the range (`type: number`, `[number, null]`, `[integer, string]`, bounds, multipleOf).  No two
+        type operands (integer next to number is C09-F1), no integral float literal (1.0 vs 1: serde_json `==`),
+        no two operands with number validation (`unimplemented!`)."""
+        rnd = self.rnd
+        self.tags.add("top-numenum")
+        restr = self.pick([{"type": "number"}, {"type": "number"}, {"type": ["number", "null"]}, {"type": ["integer", "string"]},
+                           {"minimum": 0, "maximum": 2}, {"multipleOf": 0.5}, {"type": "number", "minimum": 0},
+                           {"type": "number", "multipleOf": 0.5}, {"type": ["null", "number", "string"]}])
+        restr = json.loads(json.dumps(restr))
+        self.tags.add("numenum-" + "+".join(sorted(k if k != "type" else "type:" + json.dumps(restr[k]) for k in restr)))
+        extra = []
+        ty = restr.get("type")
+        tys = ty if isinstance(ty, list) else [ty]
+        if "string" in tys:
+            extra.append("red")
+        if "null" in tys:
+            extra.append(None)
+
+        def enum_operand():
+            ints = rnd.sample(self.NUM_INTS, rnd.randrange(1, 4))
+            fracs = rnd.sample(self.NUM_FRACS, rnd.randrange(0, 3))
+            vals = ints + fracs + [x for x in extra if rnd.random() < 0.7]
+            rnd.shuffle(vals)
+            if rnd.random() < 0.2:
+                self.tags.add("numenum-const")
+                return {"const": self.pick(ints + fracs)}
+            return {"enum": vals}
+        n = self.pick([2, 2, 3])
+        ops = [restr, enum_operand()]
+        if n == 3:
+            o2 = enum_operand()
+            if "enum" in o2 and "enum" in ops[1]:
+                # make the two enums overlap
+                o2["enum"] = list(dict.fromkeys([json.dumps(v) for v in o2["enum"] + ops[1]["enum"][:2]]))
+                o2["enum"] = [json.loads(v) for v in o2["enum"]]
+            ops.append(o2)
+        rnd.shuffle(ops)
+        return {"defs": {}, "branches": ops, "tags": sorted(self.tags)}
+
     def scalar_composition(self, n):
         """type / enum restrictions and array item schemas at the top level."""
         rnd = self.rnd
         self.tags.add("non-object")
         self.tuple_single = False
         self.tuple_closed = False
-        fam = self.pick(["types", "enum", "array", "tuple", "tuple"])
+        fam = self.pick(["types", "enum", "array", "tuple", "tuple", "numenum", "numenum"])
+        if fam == "numenum":
+            return self.numeric_enum_composition()
         self.tags.add("top-" + fam)
         out = []
         defs = {}
@@ -537,6 +583,29 @@ def candidates(seed, comp):
                 for x in (1, "red", "zzz", None, True):
                     if x != v[i]:
                         add(v[:i] + [x] + v[i + 1:], "mutant:array-position")
+    # every enum / const literal that occurs in the operands (merged-set semantics: a literal valid against all
+    # operands must be valid against the merge result)
+    def literals(x, depth=0):
+        if isinstance(x, dict) and depth < 6:
+            for v in x.get("enum", []) if isinstance(x.get("enum"), list) else []:
+                yield v
+            if "const" in x:
+                yield x["const"]
+            for k, v in x.items():
+                if isinstance(v, dict):
+                    yield from literals(v, depth + 1)
+                    if k == "properties":
+                        for pv in v.values():
+                            yield from literals(pv, depth + 1)
+                elif isinstance(v, list) and k in ("oneOf", "anyOf", "allOf", "items"):
+                    for y in v:
+                        yield from literals(y, depth + 1)
+    for b in comp["branches"]:
+        for v in literals(resolve(comp["defs"], b)):
+            add(v, "literal")
+            if isinstance(v, (int, float)) and not isinstance(v, bool):
+                add(v + 1, "mutant:literal-plus-one")
+                add(v + 0.25, "mutant:literal-fraction")
     for g in GENERIC:
         add(g, "generic")
     return out
@@ -566,6 +635,81 @@ def is_never_type(dump, name):
         seen.add(nxt)
         e = dump["entries"].get(nxt, {})
     return e.get("kind") == "enum" and e.get("variants") == []
+
+
+# ---------------------------------------------------------------------------------
+# (a) the reduced validator validate.rs `schema_value_validate` / `check_instance`: exhaustive small table
+# ---------------------------------------------------------------------------------
+VT_TYPES = ["null", "boolean", "object", "array", "number", "string", "integer"]
+VT_TYPE_LISTS = [["number", "null"], ["integer", "string"], ["null", "number", "string"], ["boolean", "array"]]
+# JSON values as serde_json reads them: integer literals within u64/i64 are integers, everything else a double
+VT_VALUES = [None, True, False, 0, 1, 2, -3, 1.0, -0.0, 1.5, 2.5, -0.5, 100.0, 1e-3, 2 ** 53, float(2 ** 53),
+             2 ** 63 - 1, -2 ** 63, 2 ** 64 - 1, 2 ** 64, 1e300, "", "a", "1", [], [1], [1.5, "a"], {}, {"a": 1}]
+
+
+def serde_is_float(v):
+    return isinstance(v, float) or (isinstance(v, int) and not isinstance(v, bool) and not (-2 ** 63 <= v < 2 ** 64))
+
+
+def validator_table(ctx, emul):
+    schemas = [{"type": t} for t in VT_TYPES] + [{"type": l} for l in VT_TYPE_LISTS] + [
+        {"enum": [1, 2.5, "a", None]}, {"const": 1}, {"const": 2.5}, {"type": "number", "enum": [1, 2.5]},
+        {"type": ["integer", "string"], "enum": [1, 2.5, "a"]}, {"type": "integer", "const": 1}, {}]
+    real = vlib.run_bin("c09", [{"op": "validate", "schema": sc, "values": VT_VALUES, "defs": {}} for sc in schemas])
+    real = [r["valid"] for r in real]
+    if emul == "validator-one-type":
+        # the seeded regression: a JSON number is classified as exactly one of integer / number
+        for sc, row in zip(schemas, real):
+            tys = sc.get("type")
+            tys = tys if isinstance(tys, list) else [tys]
+            if "number" in tys and "integer" not in tys:
+                for i, v in enumerate(VT_VALUES):
+                    if isinstance(v, int) and not isinstance(v, bool) and not serde_is_float(v):
+                        row[i] = False
+    hdr = tocoq.COQ_HEADER + "From Typify Require Import Spec.Valid Algo.Merge.\nOpen Scope string_scope.\n"
+    exprs = []
+    for sc in schemas:
+        ty = sc.get("type")
+        cty = "None" if ty is None else "(Some %s)" % tocoq.clist(ty if isinstance(ty, list) else [ty],
+                                                                   lambda t: tocoq.ITYPES[t], "itype")
+        cen = tocoq.copt(sc.get("enum"), lambda l: tocoq.clist(l, tocoq.cjson, "json"))
+        ccs = "(Some %s)" % tocoq.cjson(sc["const"]) if "const" in sc else "None"
+        exprs.append('(String.concat "" (map (fun v => if value_validate %s %s %s v then "1" else "0") %s))' % (
+            cty, cen, ccs, tocoq.clist(VT_VALUES, tocoq.cjson, "json")))
+    model = vlib.coq_eval_strings("c09vt-" + ctx.tier, hdr, exprs, shard=40)
+    model = [[ch == "1" for ch in re.sub(r'"%string$', "", m)] for m in model]
+    bad = []
+    for sc, rr, mm in zip(schemas, real, model):
+        for v, a, b in zip(VT_VALUES, rr, mm):
+            if a != b:
+                bad.append({"schema": sc, "value": v, "real schema_value_validate": a, "model value_validate": b})
+    ncell = len(schemas) * len(VT_VALUES)
+    ctx.oblige("correspondence K1 (validate.rs): Algo/Merge.v value_validate / check_instance = verif::schema_value_validate "
+               "on the exhaustive table of %d schemas (7 instance types, type lists, enum, const) x %d JSON values = %d cells"
+               % (len(schemas), len(VT_VALUES), ncell), not bad, json.dumps(bad[:4], default=str)[:1800])
+    # against draft-07 (python jsonschema), `type` rows only: the reduced validator is meant to agree except that an
+    # integral-valued double (1.0, 1e2, 2^53 as a double, 2^64) is not an `integer` for serde_json
+    trows = [i for i, sc in enumerate(schemas) if set(sc) == {"type"}]
+    ver = oracle.classify([({}, [(schemas[i], v) for v in VT_VALUES]) for i in trows])
+    diffs, known = [], []
+    for i, pyrow in zip(trows, ver):
+        tys = schemas[i]["type"] if isinstance(schemas[i]["type"], list) else [schemas[i]["type"]]
+        for v, a, b in zip(VT_VALUES, real[i], pyrow):
+            if b is None or a == b:
+                continue
+            integral_double = serde_is_float(v) and float(v) == int(float(v))
+            if (not a) and b and "integer" in tys and "number" not in tys and integral_double:
+                known.append((schemas[i], v))
+            else:
+                diffs.append({"schema": schemas[i], "value": v, "real": a, "draft-07 (python jsonschema)": b})
+    ctx.coverage["validator_table"] = {"cells": ncell, "real_vs_model_mismatches": len(bad),
+                                       "type_rows_compared_with_python": len(trows) * len(VT_VALUES),
+                                       "integral_double_not_integer_cells": len(known),
+                                       "other_differences_from_draft07": len(diffs)}
+    ctx.oblige("validate.rs check_instance agrees with draft-07 `type` on %d (type, value) cells, except integral-valued "
+               "doubles at `integer` (%d cells, finding C09-F11)" % (len(trows) * len(VT_VALUES), len(known)),
+               not diffs, json.dumps(diffs[:4], default=str)[:1500])
+    return bad, diffs, known
 
 
 def theorem_names(path, prefix):
@@ -633,6 +777,26 @@ def finding_for(ctx, comp, what, kw_instance=None):
                     return any(has_empty(x) for x in v.values())
                 return False
             if inst is not None and has_empty(inst) and items_meet:
+                return f
+        if cls == "integral-double-enum-literal-at-integer":
+            def lits(x):
+                if isinstance(x, dict):
+                    yield from (x.get("enum") or [])
+                    if "const" in x:
+                        yield x["const"]
+                    for pv in (x.get("properties") or {}).values():
+                        yield from lits(pv)
+
+            def tys(x):
+                if isinstance(x, dict):
+                    t = x.get("type")
+                    if t is not None:
+                        yield t if isinstance(t, list) else [t]
+                    for pv in (x.get("properties") or {}).values():
+                        yield from tys(pv)
+            has_lit = any(isinstance(v, float) and v == int(v) for b in br for v in lits(b))
+            has_int = any("integer" in t and "number" not in t for b in br for t in tys(b))
+            if has_lit and has_int and what in ("valid-instance-rejected", "satisfiable-but-never"):
                 return f
         if cls == "enum-emptied-by-type-filter":
             hit = False
@@ -750,6 +914,7 @@ def run(ctx):
     ctx.coverage["conversion_status"] = dict(collections.Counter(s for c in comps for s in c["status"].values()))
 
     viol = []          # dict(kind, composition, ...)
+    emul = os.environ.get("C09_EMULATE", "")
 
     def report(kind, c, **kw):
         v = {"kind": kind, "definitions": c["defs"], "allOf": c["branches"], "source": c["file"]}
@@ -810,6 +975,66 @@ def run(ctx):
     else:
         ctx.oblige("Algo/Merge.v present", False, "model file missing")
 
+    # ---- (a3) the reduced validator: exhaustive table against the model and against draft-07
+    vt_bad, vt_diffs, vt_known = [], [], []
+    if have_model:
+        try:
+            vt_bad, vt_diffs, vt_known = validator_table(ctx, emul)
+        except Exception as e:  # noqa
+            ctx.oblige("validator table evaluates", False, str(e)[-2000:])
+
+    if vt_known and any(f["id"] == "C09-F11" for f in ctx.findings_for()):
+        ctx.known_finding("C09-F11", "C09-F11: check_instance(Integer) rejects integral-valued doubles (%d cells of the "
+                                     "validator table, e.g. %s)" % (len(vt_known), json.dumps(vt_known[0], default=str)))
+
+    # ---- (a'') merged-set semantics at the MERGE level, all compositions (no compilation needed):
+    #      every candidate (incl. every enum/const literal of the operands) that the oracle finds valid against the
+    #      allOf must be valid against the schema the real merge returned, for every permutation
+    cands_all, verd_all = {}, {}
+    batches = []
+    for ci, c in enumerate(comps):
+        cs = candidates(ctx.seed * 31 + ci, c)
+        for v in c.get("instances", []):
+            if json.dumps(v, sort_keys=True) not in {json.dumps(x, sort_keys=True) for x, _ in cs}:
+                cs.append((v, "curated"))
+        cands_all[ci] = cs
+        doc = {"definitions": dict(c["defs"], P={"allOf": c["branches"]})}
+        batches.append((doc, [({"$ref": "#/definitions/P"}, v) for v, _ in cs]))
+    for ci, r in enumerate(oracle.classify(batches)):
+        verd_all[ci] = r
+    raw_merge = {}
+    for (ci, pi), m in zip(idx, mres):
+        raw_merge[(ci, pi)] = m
+    mbatches, mmeta = [], []
+    for ci, c in enumerate(comps):
+        valid_vs = [v for (v, _), r in zip(cands_all[ci], verd_all[ci]) if r is True]
+        seen_m = {}
+        for pi in c["merge"]:
+            kind = c["merge"][pi][0]
+            if kind == "never" and valid_vs:
+                report("satisfiable-but-never", c, permutation=c["perms"][pi], instance=valid_vs[0], level="merge")
+            if kind != "ok" or not valid_vs:
+                continue
+            raw = raw_merge[(ci, pi)]["schema"]
+            if emul == "merge-drops-integers" and isinstance(raw, dict) and isinstance(raw.get("enum"), list) and \
+                    "number" in json.dumps(raw.get("type", "")):
+                raw = dict(raw, enum=[x for x in raw["enum"] if not (isinstance(x, int) and not isinstance(x, bool))])
+            key = json.dumps(raw, sort_keys=True)
+            if key in seen_m:
+                continue
+            seen_m[key] = pi
+            mbatches.append(({"definitions": c["defs"]}, [(raw, v) for v in valid_vs]))
+            mmeta.append((ci, pi, valid_vs, raw))
+    n_mpairs = 0
+    for (ci, pi, vs, raw), res in zip(mmeta, oracle.classify(mbatches) if mbatches else []):
+        for v, r in zip(vs, res):
+            n_mpairs += 1
+            if r is False:
+                report("valid-instance-rejected", comps[ci], permutation=comps[ci]["perms"][pi], instance=v,
+                       merged_schema=raw, level="merge: the instance is valid against every operand but not against "
+                                                "the schema verif::merge_all returned")
+    ctx.coverage["merge_level_valid_instance_x_merged_schema_pairs"] = n_mpairs
+
     # ---- (b) world: one document per composition with the permutations that convert
     wcases, wmap = [], []
     for ci, c in enumerate(comps):
@@ -824,18 +1049,9 @@ def run(ctx):
     ctx.coverage["world_modules"] = len(wcases)
     ctx.coverage["world_status"] = dict(collections.Counter(w.status))
 
-    # candidates + oracle
-    batches, cand = [], {}
-    for wi, (ci, which) in enumerate(wmap):
-        c = comps[ci]
-        cs = candidates(ctx.seed * 31 + ci, c)
-        for v in c.get("instances", []):
-            if json.dumps(v, sort_keys=True) not in {json.dumps(x, sort_keys=True) for x, _ in cs}:
-                cs.append((v, "curated"))
-        cand[wi] = cs
-        doc = {"definitions": dict(c["defs"], P={"allOf": c["branches"]})}
-        batches.append((doc, [({"$ref": "#/definitions/P"}, v) for v, _ in cs]))
-    verdicts = oracle.classify(batches)
+    # candidates + oracle (computed for every composition in `merge_level` above)
+    cand = {wi: cands_all[ci] for wi, (ci, which) in enumerate(wmap)}
+    verdicts = [verd_all[ci] for wi, (ci, which) in enumerate(wmap)]
     reqs, rmap = [], []
     for wi, (ci, which) in enumerate(wmap):
         if w.status[wi] != "ok":
@@ -863,7 +1079,6 @@ def run(ctx):
             acc[(wi, pi)][vi] = ("na", json.dumps(o)[:80])
     ctx.evaluations += len(reqs)
 
-    emul = os.environ.get("C09_EMULATE", "")
     n_valid = n_valid_acc = 0
     n_never_types = n_unsat = 0
     never_jobs = []
@@ -1023,6 +1238,9 @@ def run(ctx):
                % (n_valid_acc, n_pairs),
                not [v for v in unlisted if v["kind"] in ("valid-instance-rejected", "satisfiable-but-never")],
                json.dumps([v for v in unlisted if v["kind"] in ("valid-instance-rejected", "satisfiable-but-never")][:2])[:2000])
+    ctx.oblige("merged-set semantics (merge level): every candidate / operand literal valid against all operands is valid "
+               "against the schema verif::merge_all returned, every permutation (%d pairs)" % n_mpairs,
+               not [v for v in unlisted if v.get("level")], json.dumps([v for v in unlisted if v.get("level")][:2], default=str)[:2000])
     ctx.oblige("direct evaluation: accept vectors, round trips and accept/reject/panic outcome equal across all permutations "
                "(%d permutations of %d compositions)" % (len(idx), len(comps)),
                not [v for v in unlisted if v["kind"].startswith(("permutation", "order"))],
